@@ -25,6 +25,7 @@ conditions are needed: every index expression does panic on a slice the rule's o
 -/
 namespace Harper.C01
 open Harper Harper.Chunks Harper.Rules Harper.Leaves Harper.PatternRules
+open Harper.C12 (env0)
 
 /-! ## how many tokens a tree matches -/
 
@@ -35,6 +36,14 @@ theorem matches_at_least (env : Env) (p : RPat) (src : List Char) (toks : List T
 /-- … and at most its `maxLen`, where the model knows one -/
 theorem matches_at_most (env : Env) (p : RPat) (k : Nat) (hk : p.maxLen = some k) (src : List Char) (toks : List Tok) (n : Nat)
     (h : p.matcher env src toks = .ok n) : n ≤ k := matcher_ub env p k hk src toks n h
+
+/-- non-vacuity of `matches_at_least` / `matches_at_most`: Dashes' tree on `---b` answers 3 (non-zero), and the two theorems
+give `2 ≤ 3 ≤ 3` -/
+example : patDashes.matcher env0 c!"---b" [⟨⟨0, 1⟩, .punct .Hyphen⟩, ⟨⟨1, 2⟩, .punct .Hyphen⟩, ⟨⟨2, 3⟩, .punct .Hyphen⟩, ⟨⟨3, 4⟩, .word⟩] = .ok 3 ∧
+    patDashes.minLen ≤ 3 ∧ 3 ≤ 3 :=
+  have h : patDashes.matcher env0 c!"---b" [⟨⟨0, 1⟩, .punct .Hyphen⟩, ⟨⟨1, 2⟩, .punct .Hyphen⟩, ⟨⟨2, 3⟩, .punct .Hyphen⟩, ⟨⟨3, 4⟩, .word⟩] = .ok 3 := by
+    decide
+  ⟨h, matches_at_least env0 patDashes _ _ 3 h (by decide), matches_at_most env0 patDashes 3 (by decide) _ _ 3 h⟩
 
 /-- Dashes matches two or three tokens, never four -/
 example : patDashes.minLen = 2 ∧ patDashes.maxLen = some 3 := by decide
@@ -49,6 +58,12 @@ expressions it returns (at most one lint) -/
 theorem matchToLint_total (env : Env) (s : Spec) (hg : s.Good) (src : List Char) (matched : List Tok)
     (h : InText src matched) (hf : s.Fits matched.length) : ∃ ls, s.run env src matched = .ok ls :=
   (Spec.run_ok env s hg src matched h hf).imp fun _ h => h.1
+
+/-- non-vacuity of `matchToLint_total`: Hereby's spec is `Good`, it `Fits` five tokens, the five tokens of `here by go`
+are in the text — and the `match_to_lint` returns a lint (last example of this file) -/
+example : specHereby.Good ∧ specHereby.Fits 5 ∧
+    InText c!"here by go" [⟨⟨0, 4⟩, .word⟩, ⟨⟨4, 5⟩, .space 1⟩, ⟨⟨5, 7⟩, .word⟩, ⟨⟨7, 8⟩, .space 1⟩, ⟨⟨8, 10⟩, .word⟩] :=
+  ⟨fineHereby.good, fineHereby.fits 5 (by decide) (by decide), by unfold InText TokIn; decide⟩
 
 /-- the five rules that compute something of their own before the lint is built do so totally and locally -/
 theorem customSteps_good : CustomGood 0 backGuard ∧ CustomGood 1 piqueCorrect ∧ CustomGood 0 pronounGuard ∧
@@ -71,6 +86,12 @@ theorem shippedRule_total (env : Env) (name : String) (r : PRule) (hn : patternR
     (toks : List Tok) (h : InText src toks) : ∃ ls, r.rule env src toks = .ok ls :=
   patternRule_total env r (fine_of_name name r hn) src toks h
 
+/-- non-vacuity of `patternRule_total` / `shippedRule_total`: the name `"Dashes"` is in the table, its rule is `Fine`, the
+tokens of `a----b` are in the text (the rule's lint on them: the example at the end of this file) -/
+example : patternRuleByName "Dashes" = some ⟨patDashes, specDashes⟩ ∧ Fine ⟨patDashes, specDashes⟩ ∧
+    InText c!"a----b" [⟨⟨0, 1⟩, .word⟩, ⟨⟨1, 2⟩, .punct .Hyphen⟩, ⟨⟨2, 3⟩, .punct .Hyphen⟩, ⟨⟨3, 4⟩, .punct .Hyphen⟩, ⟨⟨4, 5⟩, .punct .Hyphen⟩, ⟨⟨5, 6⟩, .word⟩] :=
+  ⟨rfl, fineDashes, by unfold InText TokIn; decide⟩
+
 /-- the table has the 28 names -/
 example : allPatternRules.map (·.1) = ["BackInTheDay", "Dashes", "OutOfDate", "ThenThan", "PiqueInterest", "WasAloud", "HyphenateNumberDay", "LeftRightHand", "Hereby", "Likewise", "Nobody", "Whereas", "PossessiveYour", "MultipleSequentialPronouns", "DotInitialisms", "BoringWords", "UseGenitive", "ThatWhich", "SomewhatSomething", "DespiteOf", "ChockFull", "Confident", "Oxymorons", "Hedging", "ExpandTimeShorthands", "ForNoun", "TheHowWhy", "WidelyAccepted"] := by decide
 
@@ -78,60 +99,200 @@ example : allPatternRules.map (·.1) = ["BackInTheDay", "Dashes", "OutOfDate", "
 
 theorem backInTheDay_total (env : Env) (src : List Char) (toks : List Tok) (h : InText src toks) :
     ∃ ls, (PRule.rule env ⟨patBackInTheDay, specBackInTheDay⟩) src toks = .ok ls := patternRule_total env _ fineBackInTheDay src toks h
+/-- non-vacuity of `backInTheDay_total`: the tokens of `back in the days` are in the text and the rule fires -/
+example : InText c!"back in the days" [⟨⟨0, 4⟩, .word⟩, ⟨⟨4, 5⟩, .space 1⟩, ⟨⟨5, 7⟩, .word⟩, ⟨⟨7, 8⟩, .space 1⟩, ⟨⟨8, 11⟩, .word⟩, ⟨⟨11, 12⟩, .space 1⟩, ⟨⟨12, 16⟩, .word⟩] ∧
+    PRule.rule env0 ⟨patBackInTheDay, specBackInTheDay⟩ c!"back in the days"
+      [⟨⟨0, 4⟩, .word⟩, ⟨⟨4, 5⟩, .space 1⟩, ⟨⟨5, 7⟩, .word⟩, ⟨⟨7, 8⟩, .space 1⟩, ⟨⟨8, 11⟩, .word⟩, ⟨⟨11, 12⟩, .space 1⟩, ⟨⟨12, 16⟩, .word⟩] =
+    .ok [⟨⟨0, 16⟩, [.replaceWith c!"back in the day"], 20, 0⟩] := ⟨by unfold InText TokIn; decide, by decide⟩
 theorem dashes_total (env : Env) (src : List Char) (toks : List Tok) (h : InText src toks) :
     ∃ ls, (PRule.rule env ⟨patDashes, specDashes⟩) src toks = .ok ls := patternRule_total env _ fineDashes src toks h
+/-- non-vacuity of `dashes_total`: the tokens of `a--b` are in the text and the rule fires -/
+example : InText c!"a--b" [⟨⟨0, 1⟩, .word⟩, ⟨⟨1, 2⟩, .punct .Hyphen⟩, ⟨⟨2, 3⟩, .punct .Hyphen⟩, ⟨⟨3, 4⟩, .word⟩] ∧
+    PRule.rule env0 ⟨patDashes, specDashes⟩ c!"a--b"
+      [⟨⟨0, 1⟩, .word⟩, ⟨⟨1, 2⟩, .punct .Hyphen⟩, ⟨⟨2, 3⟩, .punct .Hyphen⟩, ⟨⟨3, 4⟩, .word⟩] =
+    .ok [⟨⟨1, 3⟩, [.replaceWith ['–']], 21, 2⟩] := ⟨by unfold InText TokIn; decide, by decide⟩
 theorem outOfDate_total (env : Env) (src : List Char) (toks : List Tok) (h : InText src toks) :
     ∃ ls, (PRule.rule env ⟨patOutOfDate, specOutOfDate⟩) src toks = .ok ls := patternRule_total env _ fineOutOfDate src toks h
+/-- non-vacuity of `outOfDate_total`: the tokens of `out of date` are in the text and the rule fires -/
+example : InText c!"out of date" [⟨⟨0, 3⟩, .word⟩, ⟨⟨3, 4⟩, .space 1⟩, ⟨⟨4, 6⟩, .word⟩, ⟨⟨6, 7⟩, .space 1⟩, ⟨⟨7, 11⟩, .word⟩] ∧
+    PRule.rule env0 ⟨patOutOfDate, specOutOfDate⟩ c!"out of date"
+      [⟨⟨0, 3⟩, .word⟩, ⟨⟨3, 4⟩, .space 1⟩, ⟨⟨4, 6⟩, .word⟩, ⟨⟨6, 7⟩, .space 1⟩, ⟨⟨7, 11⟩, .word⟩] =
+    .ok [⟨⟨0, 11⟩, [.replaceWith c!"out-of-date"], 22, 0⟩] := ⟨by unfold InText TokIn; decide, by decide⟩
 theorem thenThan_total (env : Env) (src : List Char) (toks : List Tok) (h : InText src toks) :
     ∃ ls, (PRule.rule env ⟨patThenThan, specThenThan⟩) src toks = .ok ls := patternRule_total env _ fineThenThan src toks h
+/-- non-vacuity of `thenThan_total`: the tokens of `bigger then you` are in the text and the rule fires -/
+example : InText c!"bigger then you" [⟨⟨0, 6⟩, .word⟩, ⟨⟨6, 7⟩, .space 1⟩, ⟨⟨7, 11⟩, .word⟩, ⟨⟨11, 12⟩, .space 1⟩, ⟨⟨12, 15⟩, .word⟩] ∧
+    PRule.rule { env0 with wordFlags := fun w => if w == c!"bigger" then 8 else 0 } ⟨patThenThan, specThenThan⟩ c!"bigger then you"
+      [⟨⟨0, 6⟩, .word⟩, ⟨⟨6, 7⟩, .space 1⟩, ⟨⟨7, 11⟩, .word⟩, ⟨⟨11, 12⟩, .space 1⟩, ⟨⟨12, 15⟩, .word⟩] =
+    .ok [⟨⟨7, 11⟩, [.replaceWith c!"than"], 23, 0⟩] := ⟨by unfold InText TokIn; decide, by decide⟩
 theorem piqueInterest_total (env : Env) (src : List Char) (toks : List Tok) (h : InText src toks) :
     ∃ ls, (PRule.rule env ⟨patPiqueInterest, specPiqueInterest⟩) src toks = .ok ls := patternRule_total env _ finePiqueInterest src toks h
+/-- non-vacuity of `piqueInterest_total`: the tokens of `peak my interest` are in the text and the rule fires -/
+example : InText c!"peak my interest" [⟨⟨0, 4⟩, .word⟩, ⟨⟨4, 5⟩, .space 1⟩, ⟨⟨5, 7⟩, .word⟩, ⟨⟨7, 8⟩, .space 1⟩, ⟨⟨8, 16⟩, .word⟩] ∧
+    PRule.rule { env0 with wordFlags := fun w => if w == c!"my" then 16384 else 0 } ⟨patPiqueInterest, specPiqueInterest⟩ c!"peak my interest"
+      [⟨⟨0, 4⟩, .word⟩, ⟨⟨4, 5⟩, .space 1⟩, ⟨⟨5, 7⟩, .word⟩, ⟨⟨7, 8⟩, .space 1⟩, ⟨⟨8, 16⟩, .word⟩] =
+    .ok [⟨⟨0, 4⟩, [.replaceWith c!"pique"], 24, 0⟩] := ⟨by unfold InText TokIn; decide, by decide⟩
 theorem wasAloud_total (env : Env) (src : List Char) (toks : List Tok) (h : InText src toks) :
     ∃ ls, (PRule.rule env ⟨patWasAloud, specWasAloud⟩) src toks = .ok ls := patternRule_total env _ fineWasAloud src toks h
+/-- non-vacuity of `wasAloud_total`: the tokens of `was aloud` are in the text and the rule fires -/
+example : InText c!"was aloud" [⟨⟨0, 3⟩, .word⟩, ⟨⟨3, 4⟩, .space 1⟩, ⟨⟨4, 9⟩, .word⟩] ∧
+    PRule.rule env0 ⟨patWasAloud, specWasAloud⟩ c!"was aloud"
+      [⟨⟨0, 3⟩, .word⟩, ⟨⟨3, 4⟩, .space 1⟩, ⟨⟨4, 9⟩, .word⟩] =
+    .ok [⟨⟨0, 9⟩, [.replaceWith c!"was allowed"], 25, 0⟩] := ⟨by unfold InText TokIn; decide, by decide⟩
 theorem hyphenateNumberDay_total (env : Env) (src : List Char) (toks : List Tok) (h : InText src toks) :
     ∃ ls, (PRule.rule env ⟨patHyphenateNumberDay, specHyphenateNumberDay⟩) src toks = .ok ls := patternRule_total env _ fineHyphenateNumberDay src toks h
+/-- non-vacuity of `hyphenateNumberDay_total`: the tokens of `5 day plan` are in the text and the rule fires -/
+example : InText c!"5 day plan" [⟨⟨0, 1⟩, .number 10 none⟩, ⟨⟨1, 2⟩, .space 1⟩, ⟨⟨2, 5⟩, .word⟩, ⟨⟨5, 6⟩, .space 1⟩, ⟨⟨6, 10⟩, .word⟩] ∧
+    PRule.rule { env0 with wordFlags := fun w => if w == c!"plan" then 33088 else 0 } ⟨patHyphenateNumberDay, specHyphenateNumberDay⟩ c!"5 day plan"
+      [⟨⟨0, 1⟩, .number 10 none⟩, ⟨⟨1, 2⟩, .space 1⟩, ⟨⟨2, 5⟩, .word⟩, ⟨⟨5, 6⟩, .space 1⟩, ⟨⟨6, 10⟩, .word⟩] =
+    .ok [⟨⟨1, 2⟩, [.replaceWith c!"-"], 26, 0⟩] := ⟨by unfold InText TokIn; decide, by decide⟩
 theorem leftRightHand_total (env : Env) (src : List Char) (toks : List Tok) (h : InText src toks) :
     ∃ ls, (PRule.rule env ⟨patLeftRightHand, specLeftRightHand⟩) src toks = .ok ls := patternRule_total env _ fineLeftRightHand src toks h
+/-- non-vacuity of `leftRightHand_total`: the tokens of `left hand side` are in the text and the rule fires -/
+example : InText c!"left hand side" [⟨⟨0, 4⟩, .word⟩, ⟨⟨4, 5⟩, .space 1⟩, ⟨⟨5, 9⟩, .word⟩, ⟨⟨9, 10⟩, .space 1⟩, ⟨⟨10, 14⟩, .word⟩] ∧
+    PRule.rule { env0 with wordFlags := fun w => if w == c!"side" then 256 else 0 } ⟨patLeftRightHand, specLeftRightHand⟩ c!"left hand side"
+      [⟨⟨0, 4⟩, .word⟩, ⟨⟨4, 5⟩, .space 1⟩, ⟨⟨5, 9⟩, .word⟩, ⟨⟨9, 10⟩, .space 1⟩, ⟨⟨10, 14⟩, .word⟩] =
+    .ok [⟨⟨4, 5⟩, [.replaceWith c!"-"], 27, 0⟩] := ⟨by unfold InText TokIn; decide, by decide⟩
 theorem hereby_total (env : Env) (src : List Char) (toks : List Tok) (h : InText src toks) :
     ∃ ls, (PRule.rule env ⟨patHereby, specHereby⟩) src toks = .ok ls := patternRule_total env _ fineHereby src toks h
+/-- non-vacuity of `hereby_total`: the tokens of `here by go` are in the text and the rule fires -/
+example : InText c!"here by go" [⟨⟨0, 4⟩, .word⟩, ⟨⟨4, 5⟩, .space 1⟩, ⟨⟨5, 7⟩, .word⟩, ⟨⟨7, 8⟩, .space 1⟩, ⟨⟨8, 10⟩, .word⟩] ∧
+    PRule.rule { env0 with wordFlags := fun w => if w == c!"go" then 128 else 0 } ⟨patHereby, specHereby⟩ c!"here by go"
+      [⟨⟨0, 4⟩, .word⟩, ⟨⟨4, 5⟩, .space 1⟩, ⟨⟨5, 7⟩, .word⟩, ⟨⟨7, 8⟩, .space 1⟩, ⟨⟨8, 10⟩, .word⟩] =
+    .ok [⟨⟨0, 7⟩, [.replaceWith c!"hereby"], 28, 0⟩] := ⟨by unfold InText TokIn; decide, by decide⟩
 theorem likewise_total (env : Env) (src : List Char) (toks : List Tok) (h : InText src toks) :
     ∃ ls, (PRule.rule env ⟨patLikewise, specLikewise⟩) src toks = .ok ls := patternRule_total env _ fineLikewise src toks h
+/-- non-vacuity of `likewise_total`: the tokens of `like wise` are in the text and the rule fires -/
+example : InText c!"like wise" [⟨⟨0, 4⟩, .word⟩, ⟨⟨4, 5⟩, .space 1⟩, ⟨⟨5, 9⟩, .word⟩] ∧
+    PRule.rule env0 ⟨patLikewise, specLikewise⟩ c!"like wise"
+      [⟨⟨0, 4⟩, .word⟩, ⟨⟨4, 5⟩, .space 1⟩, ⟨⟨5, 9⟩, .word⟩] =
+    .ok [⟨⟨0, 9⟩, [.replaceWith c!"likewise"], 29, 0⟩] := ⟨by unfold InText TokIn; decide, by decide⟩
 theorem nobody_total (env : Env) (src : List Char) (toks : List Tok) (h : InText src toks) :
     ∃ ls, (PRule.rule env ⟨patNobody, specNobody⟩) src toks = .ok ls := patternRule_total env _ fineNobody src toks h
+/-- non-vacuity of `nobody_total`: the tokens of `no body cares` are in the text and the rule fires -/
+example : InText c!"no body cares" [⟨⟨0, 2⟩, .word⟩, ⟨⟨2, 3⟩, .space 1⟩, ⟨⟨3, 7⟩, .word⟩, ⟨⟨7, 8⟩, .space 1⟩, ⟨⟨8, 13⟩, .word⟩] ∧
+    PRule.rule { env0 with wordFlags := fun w => if w == c!"cares" then 128 else 0 } ⟨patNobody, specNobody⟩ c!"no body cares"
+      [⟨⟨0, 2⟩, .word⟩, ⟨⟨2, 3⟩, .space 1⟩, ⟨⟨3, 7⟩, .word⟩, ⟨⟨7, 8⟩, .space 1⟩, ⟨⟨8, 13⟩, .word⟩] =
+    .ok [⟨⟨0, 7⟩, [.replaceWith c!"nobody"], 30, 0⟩] := ⟨by unfold InText TokIn; decide, by decide⟩
 theorem whereas_total (env : Env) (src : List Char) (toks : List Tok) (h : InText src toks) :
     ∃ ls, (PRule.rule env ⟨patWhereas, specWhereas⟩) src toks = .ok ls := patternRule_total env _ fineWhereas src toks h
+/-- non-vacuity of `whereas_total`: the tokens of `where as` are in the text and the rule fires -/
+example : InText c!"where as" [⟨⟨0, 5⟩, .word⟩, ⟨⟨5, 6⟩, .space 1⟩, ⟨⟨6, 8⟩, .word⟩] ∧
+    PRule.rule env0 ⟨patWhereas, specWhereas⟩ c!"where as"
+      [⟨⟨0, 5⟩, .word⟩, ⟨⟨5, 6⟩, .space 1⟩, ⟨⟨6, 8⟩, .word⟩] =
+    .ok [⟨⟨0, 8⟩, [.replaceWith c!"whereas"], 31, 0⟩] := ⟨by unfold InText TokIn; decide, by decide⟩
 theorem possessiveYour_total (env : Env) (src : List Char) (toks : List Tok) (h : InText src toks) :
     ∃ ls, (PRule.rule env ⟨patPossessiveYour, specPossessiveYour⟩) src toks = .ok ls := patternRule_total env _ finePossessiveYour src toks h
+/-- non-vacuity of `possessiveYour_total`: the tokens of `you cat` are in the text and the rule fires -/
+example : InText c!"you cat" [⟨⟨0, 3⟩, .word⟩, ⟨⟨3, 4⟩, .space 1⟩, ⟨⟨4, 7⟩, .word⟩] ∧
+    PRule.rule { env0 with wordFlags := fun w => if w == c!"cat" then 64 else 0 } ⟨patPossessiveYour, specPossessiveYour⟩ c!"you cat"
+      [⟨⟨0, 3⟩, .word⟩, ⟨⟨3, 4⟩, .space 1⟩, ⟨⟨4, 7⟩, .word⟩] =
+    .ok [⟨⟨0, 3⟩, [.replaceWith c!"your", .replaceWith ['y', 'o', 'u', '\'', 'r', 'e', ' ', 'a', 'n']], 32, 0⟩] := ⟨by unfold InText TokIn; decide, by decide⟩
 theorem multipleSequentialPronouns_total (env : Env) (src : List Char) (toks : List Tok) (h : InText src toks) :
     ∃ ls, (PRule.rule env ⟨patMultipleSequentialPronouns, specMultipleSequentialPronouns⟩) src toks = .ok ls := patternRule_total env _ fineMultipleSequentialPronouns src toks h
+/-- non-vacuity of `multipleSequentialPronouns_total`: the tokens of `he she` are in the text and the rule fires -/
+example : InText c!"he she" [⟨⟨0, 2⟩, .word⟩, ⟨⟨2, 3⟩, .space 1⟩, ⟨⟨3, 6⟩, .word⟩] ∧
+    PRule.rule env0 ⟨patMultipleSequentialPronouns, specMultipleSequentialPronouns⟩ c!"he she"
+      [⟨⟨0, 2⟩, .word⟩, ⟨⟨2, 3⟩, .space 1⟩, ⟨⟨3, 6⟩, .word⟩] =
+    .ok [⟨⟨0, 6⟩, [.replaceWith c!"he", .replaceWith c!"she"], 33, 0⟩] := ⟨by unfold InText TokIn; decide, by decide⟩
 theorem dotInitialisms_total (env : Env) (src : List Char) (toks : List Tok) (h : InText src toks) :
     ∃ ls, (PRule.rule env ⟨patDotInitialisms, specDotInitialisms⟩) src toks = .ok ls := patternRule_total env _ fineDotInitialisms src toks h
+/-- non-vacuity of `dotInitialisms_total`: the tokens of `ie.` are in the text and the rule fires -/
+example : InText c!"ie." [⟨⟨0, 2⟩, .word⟩, ⟨⟨2, 3⟩, .punct .Period⟩] ∧
+    PRule.rule env0 ⟨patDotInitialisms, specDotInitialisms⟩ c!"ie."
+      [⟨⟨0, 2⟩, .word⟩, ⟨⟨2, 3⟩, .punct .Period⟩] =
+    .ok [⟨⟨0, 3⟩, [.replaceWith c!"i.e."], 34, 0⟩] := ⟨by unfold InText TokIn; decide, by decide⟩
 theorem boringWords_total (env : Env) (src : List Char) (toks : List Tok) (h : InText src toks) :
     ∃ ls, (PRule.rule env ⟨patBoringWords, specBoringWords⟩) src toks = .ok ls := patternRule_total env _ fineBoringWords src toks h
+/-- non-vacuity of `boringWords_total`: the tokens of `very` are in the text and the rule fires -/
+example : InText c!"very" [⟨⟨0, 4⟩, .word⟩] ∧
+    PRule.rule env0 ⟨patBoringWords, specBoringWords⟩ c!"very"
+      [⟨⟨0, 4⟩, .word⟩] =
+    .ok [⟨⟨0, 4⟩, [], 35, 0⟩] := ⟨by unfold InText TokIn; decide, by decide⟩
 theorem useGenitive_total (env : Env) (src : List Char) (toks : List Tok) (h : InText src toks) :
     ∃ ls, (PRule.rule env ⟨patUseGenitive, specUseGenitive⟩) src toks = .ok ls := patternRule_total env _ fineUseGenitive src toks h
+/-- non-vacuity of `useGenitive_total`: the tokens of `see there dog` are in the text and the rule fires -/
+example : InText c!"see there dog" [⟨⟨0, 3⟩, .word⟩, ⟨⟨3, 4⟩, .space 1⟩, ⟨⟨4, 9⟩, .word⟩, ⟨⟨9, 10⟩, .space 1⟩, ⟨⟨10, 13⟩, .word⟩] ∧
+    PRule.rule { env0 with wordFlags := fun w => if w == c!"dog" then 256 else 0 } ⟨patUseGenitive, specUseGenitive⟩ c!"see there dog"
+      [⟨⟨0, 3⟩, .word⟩, ⟨⟨3, 4⟩, .space 1⟩, ⟨⟨4, 9⟩, .word⟩, ⟨⟨9, 10⟩, .space 1⟩, ⟨⟨10, 13⟩, .word⟩] =
+    .ok [⟨⟨4, 9⟩, [.replaceWith c!"their"], 36, 0⟩] := ⟨by unfold InText TokIn; decide, by decide⟩
 theorem thatWhich_total (env : Env) (src : List Char) (toks : List Tok) (h : InText src toks) :
     ∃ ls, (PRule.rule env ⟨patThatWhich, specThatWhich⟩) src toks = .ok ls := patternRule_total env _ fineThatWhich src toks h
+/-- non-vacuity of `thatWhich_total`: the tokens of `that that` are in the text and the rule fires -/
+example : InText c!"that that" [⟨⟨0, 4⟩, .word⟩, ⟨⟨4, 5⟩, .space 1⟩, ⟨⟨5, 9⟩, .word⟩] ∧
+    PRule.rule env0 ⟨patThatWhich, specThatWhich⟩ c!"that that"
+      [⟨⟨0, 4⟩, .word⟩, ⟨⟨4, 5⟩, .space 1⟩, ⟨⟨5, 9⟩, .word⟩] =
+    .ok [⟨⟨0, 9⟩, [.replaceWith c!"that which"], 37, 0⟩] := ⟨by unfold InText TokIn; decide, by decide⟩
 theorem somewhatSomething_total (env : Env) (src : List Char) (toks : List Tok) (h : InText src toks) :
     ∃ ls, (PRule.rule env ⟨patSomewhatSomething, specSomewhatSomething⟩) src toks = .ok ls := patternRule_total env _ fineSomewhatSomething src toks h
+/-- non-vacuity of `somewhatSomething_total`: the tokens of `somewhat of a` are in the text and the rule fires -/
+example : InText c!"somewhat of a" [⟨⟨0, 8⟩, .word⟩, ⟨⟨8, 9⟩, .space 1⟩, ⟨⟨9, 11⟩, .word⟩, ⟨⟨11, 12⟩, .space 1⟩, ⟨⟨12, 13⟩, .word⟩] ∧
+    PRule.rule env0 ⟨patSomewhatSomething, specSomewhatSomething⟩ c!"somewhat of a"
+      [⟨⟨0, 8⟩, .word⟩, ⟨⟨8, 9⟩, .space 1⟩, ⟨⟨9, 11⟩, .word⟩, ⟨⟨11, 12⟩, .space 1⟩, ⟨⟨12, 13⟩, .word⟩] =
+    .ok [⟨⟨0, 8⟩, [.replaceWith c!"something"], 38, 0⟩] := ⟨by unfold InText TokIn; decide, by decide⟩
 theorem despiteOf_total (env : Env) (src : List Char) (toks : List Tok) (h : InText src toks) :
     ∃ ls, (PRule.rule env ⟨patDespiteOf, specDespiteOf⟩) src toks = .ok ls := patternRule_total env _ fineDespiteOf src toks h
+/-- non-vacuity of `despiteOf_total`: the tokens of `despite of` are in the text and the rule fires -/
+example : InText c!"despite of" [⟨⟨0, 7⟩, .word⟩, ⟨⟨7, 8⟩, .space 1⟩, ⟨⟨8, 10⟩, .word⟩] ∧
+    PRule.rule env0 ⟨patDespiteOf, specDespiteOf⟩ c!"despite of"
+      [⟨⟨0, 7⟩, .word⟩, ⟨⟨7, 8⟩, .space 1⟩, ⟨⟨8, 10⟩, .word⟩] =
+    .ok [⟨⟨0, 10⟩, [.replaceWith c!"despite", .replaceWith c!"in spite of"], 39, 0⟩] := ⟨by unfold InText TokIn; decide, by decide⟩
 theorem chockFull_total (env : Env) (src : List Char) (toks : List Tok) (h : InText src toks) :
     ∃ ls, (PRule.rule env ⟨patChockFull, specChockFull⟩) src toks = .ok ls := patternRule_total env _ fineChockFull src toks h
+/-- non-vacuity of `chockFull_total`: the tokens of `chalk full` are in the text and the rule fires -/
+example : InText c!"chalk full" [⟨⟨0, 5⟩, .word⟩, ⟨⟨5, 6⟩, .space 1⟩, ⟨⟨6, 10⟩, .word⟩] ∧
+    PRule.rule env0 ⟨patChockFull, specChockFull⟩ c!"chalk full"
+      [⟨⟨0, 5⟩, .word⟩, ⟨⟨5, 6⟩, .space 1⟩, ⟨⟨6, 10⟩, .word⟩] =
+    .ok [⟨⟨0, 10⟩, [.replaceWith c!"chock-full"], 40, 1⟩] := ⟨by unfold InText TokIn; decide, by decide⟩
 theorem confident_total (env : Env) (src : List Char) (toks : List Tok) (h : InText src toks) :
     ∃ ls, (PRule.rule env ⟨patConfident, specConfident⟩) src toks = .ok ls := patternRule_total env _ fineConfident src toks h
+/-- non-vacuity of `confident_total`: the tokens of `very confidant` are in the text and the rule fires -/
+example : InText c!"very confidant" [⟨⟨0, 4⟩, .word⟩, ⟨⟨4, 5⟩, .space 1⟩, ⟨⟨5, 14⟩, .word⟩] ∧
+    PRule.rule env0 ⟨patConfident, specConfident⟩ c!"very confidant"
+      [⟨⟨0, 4⟩, .word⟩, ⟨⟨4, 5⟩, .space 1⟩, ⟨⟨5, 14⟩, .word⟩] =
+    .ok [⟨⟨5, 14⟩, [.replaceWith c!"confident"], 41, 0⟩] := ⟨by unfold InText TokIn; decide, by decide⟩
 theorem oxymorons_total (env : Env) (src : List Char) (toks : List Tok) (h : InText src toks) :
     ∃ ls, (PRule.rule env ⟨patOxymorons, specOxymorons⟩) src toks = .ok ls := patternRule_total env _ fineOxymorons src toks h
+/-- non-vacuity of `oxymorons_total`: the tokens of `amateur expert` are in the text and the rule fires -/
+example : InText c!"amateur expert" [⟨⟨0, 7⟩, .word⟩, ⟨⟨7, 8⟩, .space 1⟩, ⟨⟨8, 14⟩, .word⟩] ∧
+    PRule.rule env0 ⟨patOxymorons, specOxymorons⟩ c!"amateur expert"
+      [⟨⟨0, 7⟩, .word⟩, ⟨⟨7, 8⟩, .space 1⟩, ⟨⟨8, 14⟩, .word⟩] =
+    .ok [⟨⟨0, 14⟩, [], 42, 0⟩] := ⟨by unfold InText TokIn; decide, by decide⟩
 theorem hedging_total (env : Env) (src : List Char) (toks : List Tok) (h : InText src toks) :
     ∃ ls, (PRule.rule env ⟨patHedging, specHedging⟩) src toks = .ok ls := patternRule_total env _ fineHedging src toks h
+/-- non-vacuity of `hedging_total`: the tokens of `to a certain degree` are in the text and the rule fires -/
+example : InText c!"to a certain degree" [⟨⟨0, 2⟩, .word⟩, ⟨⟨2, 3⟩, .space 1⟩, ⟨⟨3, 4⟩, .word⟩, ⟨⟨4, 5⟩, .space 1⟩, ⟨⟨5, 12⟩, .word⟩, ⟨⟨12, 13⟩, .space 1⟩, ⟨⟨13, 19⟩, .word⟩] ∧
+    PRule.rule env0 ⟨patHedging, specHedging⟩ c!"to a certain degree"
+      [⟨⟨0, 2⟩, .word⟩, ⟨⟨2, 3⟩, .space 1⟩, ⟨⟨3, 4⟩, .word⟩, ⟨⟨4, 5⟩, .space 1⟩, ⟨⟨5, 12⟩, .word⟩, ⟨⟨12, 13⟩, .space 1⟩, ⟨⟨13, 19⟩, .word⟩] =
+    .ok [⟨⟨0, 19⟩, [], 43, 0⟩] := ⟨by unfold InText TokIn; decide, by decide⟩
 theorem expandTimeShorthands_total (env : Env) (src : List Char) (toks : List Tok) (h : InText src toks) :
     ∃ ls, (PRule.rule env ⟨patExpandTimeShorthands, specExpandTimeShorthands⟩) src toks = .ok ls := patternRule_total env _ fineExpandTimeShorthands src toks h
+/-- non-vacuity of `expandTimeShorthands_total`: the tokens of `5 hrs` are in the text and the rule fires -/
+example : InText c!"5 hrs" [⟨⟨0, 1⟩, .number 10 none⟩, ⟨⟨1, 2⟩, .space 1⟩, ⟨⟨2, 5⟩, .word⟩] ∧
+    PRule.rule env0 ⟨patExpandTimeShorthands, specExpandTimeShorthands⟩ c!"5 hrs"
+      [⟨⟨0, 1⟩, .number 10 none⟩, ⟨⟨1, 2⟩, .space 1⟩, ⟨⟨2, 5⟩, .word⟩] =
+    .ok [⟨⟨2, 5⟩, [.replaceWith c!"hours"], 44, 0⟩] := ⟨by unfold InText TokIn; decide, by decide⟩
 theorem forNoun_total (env : Env) (src : List Char) (toks : List Tok) (h : InText src toks) :
     ∃ ls, (PRule.rule env ⟨patForNoun, specForNoun⟩) src toks = .ok ls := patternRule_total env _ fineForNoun src toks h
+/-- non-vacuity of `forNoun_total`: the tokens of `fro sure` are in the text and the rule fires -/
+example : InText c!"fro sure" [⟨⟨0, 3⟩, .word⟩, ⟨⟨3, 4⟩, .space 1⟩, ⟨⟨4, 8⟩, .word⟩] ∧
+    PRule.rule env0 ⟨patForNoun, specForNoun⟩ c!"fro sure"
+      [⟨⟨0, 3⟩, .word⟩, ⟨⟨3, 4⟩, .space 1⟩, ⟨⟨4, 8⟩, .word⟩] =
+    .ok [⟨⟨0, 3⟩, [.replaceWith c!"for"], 45, 0⟩] := ⟨by unfold InText TokIn; decide, by decide⟩
 theorem theHowWhy_total (env : Env) (src : List Char) (toks : List Tok) (h : InText src toks) :
     ∃ ls, (PRule.rule env ⟨patTheHowWhy, specTheHowWhy⟩) src toks = .ok ls := patternRule_total env _ fineTheHowWhy src toks h
+/-- non-vacuity of `theHowWhy_total`: the tokens of `the why x` are in the text and the rule fires -/
+example : InText c!"the why x" [⟨⟨0, 3⟩, .word⟩, ⟨⟨3, 4⟩, .space 1⟩, ⟨⟨4, 7⟩, .word⟩, ⟨⟨7, 8⟩, .space 1⟩, ⟨⟨8, 9⟩, .word⟩] ∧
+    PRule.rule env0 ⟨patTheHowWhy, specTheHowWhy⟩ c!"the why x"
+      [⟨⟨0, 3⟩, .word⟩, ⟨⟨3, 4⟩, .space 1⟩, ⟨⟨4, 7⟩, .word⟩, ⟨⟨7, 8⟩, .space 1⟩, ⟨⟨8, 9⟩, .word⟩] =
+    .ok [⟨⟨0, 4⟩, [.remove], 46, 0⟩] := ⟨by unfold InText TokIn; decide, by decide⟩
 theorem widelyAccepted_total (env : Env) (src : List Char) (toks : List Tok) (h : InText src toks) :
     ∃ ls, (PRule.rule env ⟨patWidelyAccepted, specWidelyAccepted⟩) src toks = .ok ls := patternRule_total env _ fineWidelyAccepted src toks h
+/-- non-vacuity of `widelyAccepted_total`: the tokens of `wide used` are in the text and the rule fires -/
+example : InText c!"wide used" [⟨⟨0, 4⟩, .word⟩, ⟨⟨4, 5⟩, .space 1⟩, ⟨⟨5, 9⟩, .word⟩] ∧
+    PRule.rule env0 ⟨patWidelyAccepted, specWidelyAccepted⟩ c!"wide used"
+      [⟨⟨0, 4⟩, .word⟩, ⟨⟨4, 5⟩, .space 1⟩, ⟨⟨5, 9⟩, .word⟩] =
+    .ok [⟨⟨0, 4⟩, [.replaceWith c!"widely"], 47, 0⟩] := ⟨by unfold InText TokIn; decide, by decide⟩
 
 /-! ## the length conditions are needed (kernel-evaluated) -/
 
